@@ -113,7 +113,13 @@ def to_sqlite(v):
     return v[1]
 
 
+class TextBytes(bytes):
+    """bytes of a TEXT value (use as sqlite3 text_factory so TEXT and BLOB stay distinguishable)"""
+
+
 def from_sqlite(x):
+    if isinstance(x, TextBytes):
+        return ("t", bytes(x))
     if x is None:
         return ("n",)
     if isinstance(x, bool):
